@@ -614,6 +614,12 @@ func (d *PathDecoder) collectInferredReferenceTargetsForBody(addr lang.Address, 
 		}
 
 		for i, b := range bCollection.Blocks {
+			if len(b.Labels) == 0 {
+				// map blocks are keyed by their first label,
+				// which an incomplete block may be missing
+				continue
+			}
+
 			elemAddr := append(blockAddr.Copy(), lang.IndexStep{
 				Key: cty.StringVal(b.Labels[0]),
 			})
